@@ -237,23 +237,25 @@ class Gates:
         targets = self.oks + [b for b, _ in self.delegated]
         if not targets:
             return False, "no Ok exit found"
+        # the path-sensitive interpreter decides when it can follow every path; otherwise the CFG argument
+        ps = self.path_sensitive()
+        if ps["decided"][0]:
+            return ps["footer"]
         ok = bool(self.footer_edges) and bool(self.not4_edges) and self.v.cfg.must_pass(targets, edges=self.footer_edges + self.not4_edges)
         if not ok:
-            # correlated branches (e.g. an Option filled in the 4-segment arm and tested later): decide path-sensitively
-            ps = self.path_sensitive()
-            if ps["footer"][0]:
-                return True, None
-            return False, ps["footer"][1]
+            return False, ps["footer"][1] or ps["decided"][1]
         return ok, None
 
     def count_gate_ok(self):
         if self.body is None:
             return False, "anchor missing"
         targets = self.oks + [b for b, _ in self.delegated]
+        ps = self.path_sensitive()
+        if ps["decided"][0]:
+            return ps["count"]
         ok = bool(self.in34_edges) and self.v.cfg.must_pass(targets, edges=self.in34_edges)
         if not ok:
-            ps = self.path_sensitive()
-            return ps["count"]
+            return False, ps["count"][1] or ps["decided"][1]
         return ok, None
 
     def header_gate_ok(self, which):
@@ -261,10 +263,12 @@ class Gates:
             return False, "anchor missing"
         targets = self.oks + [b for b, _ in self.delegated]
         edges = self.header_edges[which]
+        ps = self.path_sensitive()
+        if ps["decided"][0]:
+            return ps["header%d" % which]
         ok = bool(edges) and self.v.cfg.must_pass(targets, edges=edges)
         if not ok:
-            ps = self.path_sensitive()
-            return ps["header%d" % which]
+            return False, ps["header%d" % which][1] or ps["decided"][1]
         return ok, None
 
     def refusal_ok(self):
@@ -272,7 +276,7 @@ class Gates:
         if self.body is None:
             return False, "anchor missing"
         ps = self.path_sensitive()
-        if not ps["refusal"][0] and not all(ps[k][0] for k in ("footer", "count", "header0", "header1", "payload")):
+        if not ps["refusal"][0] and not ps["decided"][0]:
             # the interpreter does not understand how this version accepts tokens (an idiom without a model): its view of the refusals
             # is not evidence either; the accepting side is then decided by the structural gates alone
             structural = bool(self.footer_edges) and bool(self.in34_edges) and bool(self.header_edges[0]) and bool(self.header_edges[1])
@@ -282,6 +286,9 @@ class Gates:
 
     def payload_ok(self):
         """the Ok value is URL_SAFE_NO_PAD.decode(segment 2)"""
+        ps = self.path_sensitive()
+        if ps["decided"][0]:
+            return ps["payload"] if ps["engine"][0] else ps["engine"]
         for d in self.v.defs.get(0, []):
             if d[0] == "assign" and d[3]["k"] == "aggregate" and d[3].get("variant") == "Ok":
                 t = self.N.norm(self.v.op_term(d[3]["fields"][0]))
@@ -311,6 +318,7 @@ def path_sensitive(facts, body):
             A.Ptr(st.new_cell(A.Sym("V"))), A.Ptr(st.new_cell(A.Sym("P")))]
     outs = I.run(body, args, st)
     v = {"footer": [True, None], "count": [True, None], "header0": [True, None], "header1": [True, None], "payload": [True, None]}
+    undecided = []
     n_ok = 0
     for o in outs:
         if o.kind != "return":
@@ -320,8 +328,9 @@ def path_sensitive(facts, body):
             continue
         n_ok += 1
         if o.state.unmodelled or any("undecided" in n for n in o.state.notes):
+            undecided.append("accepting path not decided (%s %s)" % (o.state.unmodelled, o.state.notes[:1]))
             for k in v:
-                v[k] = [False, "accepting path not decided (%s %s)" % (o.state.unmodelled, o.state.notes[:1])]
+                v[k] = [False, undecided[-1]]
             continue
         lo, hi = o.state.bounds.get("len(parts0)", (1, A.LEN_MAX))
         eqs = [(e[1], e[2]) for e in o.state.events if e[0] == "equal"]
@@ -339,11 +348,14 @@ def path_sensitive(facts, body):
         if not h1:
             v["header1"] = [False, "a token is accepted without segment 1 having been found equal to the expected purpose when [%s]" % cond]
         pv = MD.deref(I, o.state, r.fields.get("0"))
-        if not (isinstance(pv, A.Seq) and pv.name.startswith("decoded")):
-            v["payload"] = [False, "the accepted value is %r, not a base64 decoding" % (pv,)]
+        if not (isinstance(pv, A.Seq) and pv.name.startswith("decoded") and pv.attrs.get("decoded_of", "parts0[2]") == "parts0[2]"):
+            v["payload"] = [False, "the accepted value is %r, not the base64url decoding of segment 2" % (pv,)]
     if n_ok == 0:
+        undecided.append("no accepting path found by the abstract interpreter")
         for k in v:
-            v[k] = [False, "no accepting path found by the abstract interpreter"]
+            v[k] = [False, undecided[-1]]
+    if any(o.kind == "abort" for o in outs):
+        undecided.append("a path was abandoned by the interpreter")
     # refusals: every Err outcome has one of the stated causes (segment count, footer mismatch, header mismatch, payload not base64url);
     # a refusal for any other reason turns away tokens the producing side emits
     v["refusal"] = [True, None]
@@ -391,7 +403,9 @@ def path_sensitive(facts, body):
             v["refusal"] = [False, "a token is refused (%s) without a segment-count, footer, header or payload-decoding cause when [%s]" % (MD.describe(I, o.state, r.fields.get("0")), cond)]
     if n_err == 0 and v["refusal"][0]:
         v["refusal"] = [False, "no refusing path found by the abstract interpreter"]
-    return {k: tuple(x) for k, x in v.items()}
+    res = {k: tuple(x) for k, x in v.items()}
+    res["decided"] = (not undecided, "; ".join(undecided[:2]))
+    return res
 
 
 _g = {}
